@@ -30,5 +30,14 @@ int main(int argc, char **argv) {
         R.write();
         vf::g_active_report = nullptr;
     }
+    if (o.want("ownership_object_history")) { // "a mutex whose every ownership has been released can be locked again": life-cycle of ownership objects
+        vf::report R("C08", "ownership_object_history", o);
+        vf::g_active_report = &R;
+        vf::team T(1, o, true);
+        scn::ownership_object_history(o, R, o.cases);
+        T.export_hits(R);
+        R.write();
+        vf::g_active_report = nullptr;
+    }
     return 0;
 }
